@@ -367,6 +367,10 @@ impl CaseCtx<'_> {
     pub fn tier(&self) -> Tier {
         self.w.tier
     }
+    /// Whether this signature is a listed (unrepaired) known finding of the property.
+    pub fn is_known(&self, sig: &str) -> bool {
+        self.w.known.matches(&self.w.prop, sig).is_some()
+    }
     /// Announce for crash attribution (C09/C14).
     pub fn start(&self, artefact: impl FnOnce() -> Value) {
         self.w.start_case(self.shard, self.idx, artefact);
